@@ -1,4 +1,6 @@
 import Vanguard.Lemmas.Timeout
+import Vanguard.Lemmas.UInt8
+import Vanguard.Gen.Facts
 /-!
   C12 — Deadlines are propagated to the backend and never extended.
 -/
@@ -378,5 +380,88 @@ example : grpcExtractTimeout [0x31, 0x35, 0x53] = some (some 15000000000) := by 
 example : grpcExtractTimeout [0x39, 0x48] = some none := by decide
 example : grpcExtractTimeout [0x31, 0x73] = none := by decide
 example : connectExtractTimeout [0x32, 0x35, 0x30] = some (some 250000000) := by decide
+
+/-! ### the model's timeout codecs are the ones in the source as it reads now
+
+  `Vanguard.Gen` is regenerated from `protocol_grpc.go` / `protocol_connect.go` on every run
+  (`extract/`): the unit switch, the digit and hour bounds with their comparison operators, the ladder
+  of `grpcEncodeTimeout`, the length bound and clamp text of `connectEncodeTimeout`.  The theorems
+  below state that the model's functions are exactly the functions these facts describe - for every
+  input; a change of any of them in the source breaks the theorem. -/
+
+/-- `a <op> b` with the operator the source uses (`strict` = `>`). -/
+def over (strict : Bool) (a b : Int) : Bool := if strict then decide (a > b) else decide (a ≥ b)
+
+/-- `grpcTimeoutUnitLookup` as the source's switch reads. -/
+def grpcUnitSrc (c : UInt8) : Int := ((Gen.grpcUnits.find? fun p => p.1 == c.toNat).map (·.2)).getD Gen.grpcUnitDefault
+
+set_option maxRecDepth 100000 in
+theorem source_grpc_units_is_model : ∀ c : UInt8, grpcUnit c = grpcUnitSrc c :=
+  forall_uint8 (by decide +kernel)
+
+/-- `grpcDecodeTimeout` with the bounds and operators of the source. -/
+def grpcDecodeTimeoutSrc (s : Bytes) : TimeoutRes :=
+  match s.getLast? with
+  | none => .noTimeout
+  | some u =>
+    let unit := grpcUnitSrc u
+    if unit == 0 then .err else
+    match parseInt64 s.dropLast with
+    | none => .err
+    | some num =>
+      if num < 0 then .err
+      else if over Gen.grpcTimeoutMaxNumStrict num Gen.grpcTimeoutMaxNum then .err
+      else if unit == 3600000000000 && over Gen.grpcTimeoutMaxHoursStrict num Gen.grpcTimeoutMaxHours then .noTimeout
+      else .ok (num * unit)
+
+theorem source_grpc_decode_is_model (s : Bytes) : grpcDecodeTimeout s = grpcDecodeTimeoutSrc s := by
+  unfold grpcDecodeTimeout grpcDecodeTimeoutSrc
+  cases s.getLast? with
+  | none => rfl
+  | some u =>
+    simp only [source_grpc_units_is_model u]
+    have h1 : ∀ n : Int, over Gen.grpcTimeoutMaxNumStrict n Gen.grpcTimeoutMaxNum = decide (n > 99999999) := fun n => rfl
+    have h2 : ∀ n : Int, over Gen.grpcTimeoutMaxHoursStrict n Gen.grpcTimeoutMaxHours = decide (n > 8) := fun n => rfl
+    simp only [h1, h2, decide_eq_true_eq]
+    by_cases hu : (grpcUnitSrc u == 0) = true
+    · simp only [hu, if_true]
+    · simp only [hu, Bool.false_eq_true, if_false]
+      cases parseInt64 (List.dropLast s) <;> rfl
+
+/-- `grpcEncodeTimeout` with the ladder of the source. -/
+def grpcEncodeTimeoutSrc (d : Int) : Bytes :=
+  if d ≤ 0 then [0x30, 0x6E]
+  else match Gen.grpcEncodeLadder.find? fun r => decide (d < r.1 * Gen.grpcTimeoutMaxValue) with
+    | some r => formatInt (d / r.2.1) ++ [UInt8.ofNat r.2.2]
+    | none => formatInt (d / Gen.grpcEncodeDefault.1) ++ [UInt8.ofNat Gen.grpcEncodeDefault.2]
+
+theorem source_grpc_encode_is_model (d : Int) : grpcEncodeTimeout d = grpcEncodeTimeoutSrc d := by
+  unfold grpcEncodeTimeout grpcEncodeTimeoutSrc
+  by_cases h0 : d ≤ 0
+  · simp only [h0, if_true]
+  · simp only [h0, if_false, Gen.grpcEncodeLadder, Gen.grpcTimeoutMaxValue, Gen.grpcEncodeDefault, List.find?]
+    by_cases h1 : d < 100000000
+    · simp [h1]
+    · by_cases h2 : d < 100000000000
+      · simp [h1, h2]
+      · by_cases h3 : d < 100000000000000
+        · simp [h1, h2, h3]
+        · by_cases h4 : d < 100000000000000000
+          · simp [h1, h2, h3, h4]
+          · by_cases h5 : d < 6000000000000000000
+            · simp [h1, h2, h3, h4, h5]
+            · simp [h1, h2, h3, h4, h5]
+
+/-- `connectEncodeTimeout` with the length bound and clamp text of the source. -/
+def connectEncodeTimeoutSrc (d : Int) : Bytes :=
+  let s := formatInt (Int.tdiv d 1000000)
+  if over Gen.connectTimeoutMaxLenStrict s.length Gen.connectTimeoutMaxLen then Gen.connectTimeoutClamp.map UInt8.ofNat else s
+
+theorem source_connect_encode_is_model (d : Int) : connectEncodeTimeout d = connectEncodeTimeoutSrc d := by
+  unfold connectEncodeTimeout connectEncodeTimeoutSrc
+  have h : ∀ n : Nat, over Gen.connectTimeoutMaxLenStrict n Gen.connectTimeoutMaxLen = decide (n > 10) := by
+    intro n; simp [over, Gen.connectTimeoutMaxLenStrict, Gen.connectTimeoutMaxLen]; omega
+  simp only [h, decide_eq_true_eq]
+  rfl
 
 end Vanguard.C12
